@@ -100,11 +100,12 @@ def run_case(ctx, rng, h):
         nonlocal w
         exc = real.run(F_ALL, o)
         w = real.dump_world()
-        rec["events"].append({"ev": ("op", F_ALL, o), "exc": exc, "w": w})
-        return exc
+        partial = exc is not None and len(c01.op_sources(o)) > 1
+        rec["events"].append({"ev": ("op", F_ALL, o), "exc": exc, "w": w, "partial": partial})
+        return "AssertionError" if partial else exc
     for _ in range(rng.randint(0, 8)):
         o = legal_op()
-        if o and do_op(o) in ("ValueError", "AssertionError", "AttributeError"):
+        if o and do_op(o) in ("AssertionError", "AttributeError"):
             return rec
     if c01.world_has_13b(w):
         rec["classes"] = ["namespaced-attribute-meets-equal-default-namespace"]
@@ -208,7 +209,7 @@ def run_case(ctx, rng, h):
                 rec["fail"] = ("an edit of the %s is visible in the %s" % (("clone", "original") if on_clone else ("original", "clone")),
                                dict(case, events=[e["ev"] for e in rec["events"]], before=comp, after=after.get(rid)))
                 return rec
-        if exc in ("ValueError", "AssertionError", "AttributeError"):
+        if exc in ("AssertionError", "AttributeError"):
             break
     return rec
 
@@ -233,7 +234,7 @@ def compare(ctx, rec, val):
         if mexc != rexc:
             ctx.mismatch("model result vs implementation", {"case": case, "impl": e["exc"], "model": cr})
             return
-        if cr[0] == "crash":
+        if cr[0] == "crash" or e.get("partial"):
             return
         if T.norm_cworld(cw) != e["w"]:
             ctx.mismatch("model state vs implementation (%s)" % e["ev"][0], {"case": case, "impl": e["w"], "model": T.norm_cworld(cw)})
